@@ -153,7 +153,7 @@ func run(c Case, k *ev.Case) *ev.Failure {
 	if err != nil {
 		return ev.Failf("harness", "connect: %v", err)
 	}
-	env.HangLimit = 10 * time.Second
+	env.SetHangLimit(10 * time.Second)
 	defer sim.Call(5*time.Second, func() { env.Do(999, 0, scn.Op{Kind: "conn-close", CtxMs: 1000}) })
 	hist := func() any {
 		return map[string]any{"calls": scn.Summary(env.Records()), "ledger": scn.LedgerSummary(b.Ledger(), 200), "events": fmt.Sprintf("%+v", env.Events.Snapshot())}
